@@ -35,6 +35,7 @@ RULE += (' Also: catalogue scenarios with every protocol slot filled by a restar
 RULE += (" Also: close / scope exit during another task's pending read (scenarios of C07), judged on foreign suspensions.")
 RULE += (' Also: items that happen to be awaitable (payload) through every tool with synchronous arguments: never awaited.')
 RULE += (' Also: tools left after k items over class-based sources whose own aclose suspends, under a loop with and without async generator hooks: no clean-up awaitable is killed, none is pending when aclose() returns, nothing unraisable.')
+RULE += (' Also: synchronous callables whose later results are awaitable payload.')
 ASSUMPTIONS = ["a loop that checks identity of every token and reply is at least as strict as any real event loop",
                "C functions called from asyncstdlib code are visible to sys.monitoring CALL events"]
 EXHAUSTIVE = {"quick": False, "thorough": False}
@@ -139,7 +140,7 @@ def cases(tier, seed, shard, nshards):
             if k % nshards == shard:
                 yield {"kind": "large-sync", "tool": name, "n": n}
     for m in (1, 2, 7):
-        for name in LARGE_TOOLS:
+        for name in LARGE_TOOLS + ["map_later_payload", "reduce_later_payload", "accumulate_later_payload"]:
             if name == "any_iter":
                 continue  # (any_iter awaits awaitable items by contract)
             k += 1
@@ -836,6 +837,14 @@ def run_large_sync(case, stats):
         data = [Job(i) for i in range(n)]
 
     async def main():
+        if tool == "map_later_payload":
+            # a plain function whose FIRST result is a plain value (so it is a synchronous callable) and whose later
+            # results are items that happen to be awaitable: results like any other, handed on as they are
+            return len(await A.list(A.map(lambda x, y: 0 if int(x) == 0 else x, data, data)))
+        if tool == "reduce_later_payload":
+            return int(await A.reduce(lambda a, b: 0 if int(b) == 0 else b, data, 0))
+        if tool == "accumulate_later_payload":
+            return len(await A.list(A.accumulate(data, lambda a, b: 0 if int(b) <= 1 else b, initial=0)))
         if tool == "list":
             return len(await A.list(data))
         if tool == "sum":
